@@ -4,6 +4,7 @@ import ast
 from ..pm import AnalysisError, norm_src, func_params
 from ..flow import CFG, attr_chain
 from ..astutil import call_name, parents
+from ..match import resolve_expr, cfg_node
 from ..e2_tables import TableEval
 from ..e3_axes import Arr, Ax, NoneV, StrV
 from ..scenarios import fit_scenario, evaluate_scenario, GEMINI_CLASSES, nonusage, dedup_events
@@ -19,6 +20,8 @@ EXPLANATION = (
     "package is classified by the guard that keeps its denominator away from 0 (constant, size >= 1, validated-positive "
     "hyper-parameter, clipped-probability-derived, explicit where/mask guard, >= 1 by construction); an unclassified site "
     "is reported as an advisory, not a violation. Not decided: finiteness in general (overflow, cancellation).")
+ADOPT = [("C02", ["C02-f"], "a zero distance between two clusters (batch of one sample, duplicated samples, saturated predictions) must not turn the "
+          "gradient into inf/NaN")]
 ASSUMPTIONS = ["softmax outputs can underflow to 0; clipped values cannot", "numpy shape semantics of gcverif/e3_numpy.py"]
 
 SIZE_NAMES = {"N", "n", "n_leaf", "batch", "k", "d", "K"}
@@ -124,7 +127,15 @@ def run(pm, ctx):
                 arg = n.args[0] if n.args else None
                 f = next((p_ for p_ in parents(n) if isinstance(p_, ast.FunctionDef)), None)
                 site = f"{u.relpath}:{f.name if f else '<module>'}: {norm_src(n)[:50]}"
-                if arg is not None and _bounded_above(arg, f):
+                gm = _global_max_shift(arg, f) if arg is not None else None
+                if gm is not None:
+                    st = n
+                    while not isinstance(st, ast.stmt):
+                        st = st._parent
+                    ctx.violation("C17-e", u.relpath, f.name if f else "<module>", norm_src(st)[:160], f"{norm_src(n)[:60]} shifts by `{gm}`, the maximum over ALL "
+                                  f"entries instead of the maximum of each row: a row lying ~745 below the global maximum underflows to exp = 0 everywhere and its "
+                                  f"normalisation is 0/0 = NaN", line=n.lineno, site=site)
+                elif arg is not None and _bounded_above(arg, f):
                     ctx.ok("C17-e", site, "argument is shifted by its maximum / non-positive")
                 else:
                     st = n
@@ -136,6 +147,30 @@ def run(pm, ctx):
         ctx.ok("C17-e", "no raw exponential in the package (softmax comes from scikit-learn, which shifts by the maximum)")
     # ---- d division-site table
     division_table(pm, ctx, te)
+
+
+def _global_max_shift(arg, f):
+    """arg is `x - x.max()` / `x - np.max(x)` with no axis: the shift is one scalar for the whole array"""
+    if isinstance(arg, ast.Name) and f is not None:
+        defs = [s_ for s_ in ast.walk(f) if isinstance(s_, ast.Assign) and any(isinstance(t, ast.Name) and t.id == arg.id for t in s_.targets)]
+        if len(defs) == 1:
+            return _global_max_shift(defs[0].value, None)
+        return None
+    if isinstance(arg, ast.BinOp) and isinstance(arg.op, ast.Sub):
+        r = arg.right
+        if isinstance(r, ast.Name) and f is not None:
+            defs = [s_ for s_ in ast.walk(f) if isinstance(s_, ast.Assign) and any(isinstance(t, ast.Name) and t.id == r.id for t in s_.targets)]
+            if len(defs) == 1:
+                r = defs[0].value
+        if isinstance(r, ast.Call) and ((isinstance(r.func, ast.Attribute) and r.func.attr == "max" and not isinstance(r.func.value, ast.Name) or
+                                         isinstance(r.func, ast.Attribute) and r.func.attr == "max" and isinstance(r.func.value, ast.Name) and r.func.value.id not in ("np", "numpy"))
+                                        or (call_name(r) or "") in ("np.max", "np.amax", "numpy.max")):
+            is_method = not ((call_name(r) or "") in ("np.max", "np.amax", "numpy.max"))
+            pos_axis = r.args[0:1] if is_method else r.args[1:2]
+            has_axis = bool(pos_axis) or any(k.arg == "axis" and not (isinstance(k.value, ast.Constant) and k.value.value is None) for k in r.keywords)
+            if not has_axis:
+                return norm_src(r)
+    return None
 
 
 def _bounded_above(arg, f):
@@ -195,6 +230,28 @@ def classify_denominator(pm, u, f, den, te):
     return None
 
 
+_cfg_cache = {}
+
+
+def _zero_possible(e):
+    """the (resolved) denominator is a norm / sum of absolute values / square root of a data-dependent quantity, unguarded"""
+    if isinstance(e, ast.Call):
+        cn = (call_name(e) or "")
+        last = cn.split(".")[-1]
+        if last == "norm":
+            return "a norm"
+        if last == "sqrt" and e.args and any(isinstance(x, ast.Call) and (call_name(x) or "").split(".")[-1] in ("sum", "square", "dot") or
+                                             isinstance(x, ast.BinOp) and isinstance(x.op, ast.Pow) for x in ast.walk(e.args[0])):
+            return "the square root of a sum of squares"
+        if last in ("abs", "absolute") and e.args:
+            return "an absolute value"
+        if last == "where" or last == "maximum" or last == "clip":
+            return None
+    if isinstance(e, ast.BinOp) and isinstance(e.op, ast.Mult):
+        return _zero_possible(e.left) or _zero_possible(e.right)
+    return None
+
+
 def division_table(pm, ctx, te):
     for u in pm.units.values():
         for n in ast.walk(u.tree):
@@ -212,9 +269,27 @@ def division_table(pm, ctx, te):
             site = f"{u.relpath}:{f.name}: / {norm_src(den)[:50]}"
             if cls:
                 ctx.ok("C17-d", site, cls)
+                continue
+            # not a recognised guard class: is the denominator a quantity that is exactly zero for legal inputs?
+            zero = None
+            if not u.is_pyx:
+                try:
+                    cfg = _cfg_cache.setdefault(id(f), CFG(f))
+                    st = cfg_node(cfg, n)
+                    full = resolve_expr(cfg, st, den) if st is not None else den
+                except Exception:
+                    full = den
+                if full is not den:
+                    cls = classify_denominator(pm, u, f, full, te)
+                    if cls:
+                        ctx.ok("C17-d", site, cls + " (through a local)")
+                        continue
+                zero = _zero_possible(full)
+            if zero:
+                ctx.violation("C17-d", u.relpath, f.name, norm_src(n)[:120], f"division by {norm_src(den)[:40]} = {zero}, which is exactly 0 for legal inputs "
+                              f"(an eliminated weight group, a constant column, duplicated samples): 0/0 = NaN spreads to every parameter", line=n.lineno, site=site)
             else:
-                ctx.ok("C17-d", site, "unclassified (advisory)")
-                ctx.advisory("C17-d", site, "division site without a recognised guard class")
+                ctx.undecided_site("C17-d", site, "division whose denominator has no recognised guard (np.where(d == 0, 1, d), + mask, clipped probability, size)")
 
 
 def controls(pm, tier):
